@@ -283,6 +283,19 @@ type runner interface {
 	name() string
 	run(t *testing.T, prop string)
 	replay(raw json.RawMessage) error
+	fuzz(f *testing.F, prop string)
+}
+
+func (s *Sub[C]) fuzz(f *testing.F, prop string)  { Fuzz(f, prop, *s) }
+func (e *Enum[C]) fuzz(f *testing.F, prop string) { f.Skip("enumerated sub-check: nothing to fuzz") }
+
+// FuzzNamed runs the registered sub-check called sub under the native fuzzer (see Fuzz).
+func FuzzNamed(f *testing.F, prop, sub string) {
+	r := find(sub)
+	if r == nil {
+		f.Fatalf("vf: no sub-check %q in %s", sub, prop)
+	}
+	r.fuzz(f, prop)
 }
 
 // Sub is a rapid-driven sub-check over cases of type C.
